@@ -14,7 +14,7 @@ for c in $(git -C "$D/repo" rev-list --reverse "$BASE"..HEAD); do
     echo "CONFLICT cherry-picking $old: $(git -C "$D/repo" log -1 --format=%s $c)"; git -C /repo status --short | head; exit 1
   fi
 done
-if [ -f "$D/known_findings.txt" ]; then
+if [ -n "$WITH_KF" ] && [ -f "$D/known_findings.txt" ]; then   # default: use tools/kfmerge.py per property instead
   grep -E "^(fixed|finding):" "$D/known_findings.txt" | sed $MAP -e 's/^//' > /tmp/_kf_new.txt || true
   # only lines not already present
   while IFS= read -r line; do grep -qxF "$line" /verif/known_findings.txt || echo "$line" >> /verif/known_findings.txt; done < /tmp/_kf_new.txt
